@@ -19,7 +19,8 @@ namespace {
 
 constexpr int MAXTHR = 16;
 constexpr int MAXOBJ = 4096;
-constexpr int NREP = 8;
+constexpr int NHIST = 96;   // read-only observations remembered per thread and epoch
+constexpr int MAXPERIOD = 24;  // longest loop body (in observations) recognised as a spin loop
 
 enum St : uint8_t { UNUSED, RUNNABLE, B_MUTEX, B_CV, B_JOIN, B_FUTURE, SLEEPING, FINISHED };
 const char *const kStName[] = {"unused", "runnable", "blocked-mutex", "blocked-cv", "blocked-join", "blocked-future", "sleeping", "finished"};
@@ -36,10 +37,10 @@ struct Thr {
   uint64_t yield_epoch = 0;
   vf::H128 obs;
   uint64_t ncreated = 0;
-  // repetition detection (DESIGN 2.4)
+  // repetition detection (DESIGN 2.4 / 12.1): read-only observations made in the current write epoch
   uint64_t rep_epoch = ~0ull;
-  int nrep = 0;
-  struct { int obj; uint64_t vh; int count; } rep[NREP];
+  int nhist = 0;
+  struct { int obj; uint64_t vh; } hist[NHIST];
   sem_t sem;
   pthread_t pt;
   Task *task = nullptr;
@@ -258,7 +259,7 @@ void begin(vf::Ctx &ctx) {
   g_ctx = &ctx;
   for (int i = 0; i < MAXTHR; ++i) {
     g_thr[i].st = UNUSED; g_thr[i].wait_obj = g_thr[i].wait_mutex = -1; g_thr[i].deadline = -1; g_thr[i].timed_out = false;
-    g_thr[i].yielded = false; g_thr[i].obs = vf::H128(); g_thr[i].ncreated = 0; g_thr[i].rep_epoch = ~0ull; g_thr[i].nrep = 0;
+    g_thr[i].yielded = false; g_thr[i].obs = vf::H128(); g_thr[i].ncreated = 0; g_thr[i].rep_epoch = ~0ull; g_thr[i].nhist = 0;
   }
   g_nthr = 1;
   g_thr[0].st = RUNNABLE;
@@ -326,16 +327,29 @@ void did_read(int obj, uint64_t vh) {
   Thr &s = me();
   Obj &o = g_obj[obj];
   s.obs.add(o.name); s.obs.add(vh); s.obs.add(o.hist.a); s.obs.add(o.hist.b);
-  // repetition: the same read-only observation for the third time in an unchanged world
-  if (s.rep_epoch != g_epoch) { s.rep_epoch = g_epoch; s.nrep = 0; }
-  int k;
-  for (k = 0; k < s.nrep; ++k)
-    if (s.rep[k].obj == obj && s.rep[k].vh == vh) break;
-  if (k == s.nrep) {
-    if (s.nrep < NREP) { s.rep[s.nrep].obj = obj; s.rep[s.nrep].vh = vh; s.rep[s.nrep].count = 1; s.nrep++; }
-  } else if (++s.rep[k].count >= 3) {
-    s.yielded = true;
-    s.yield_epoch = g_epoch;
+  // Spin-loop detection: the thread's read-only observations since the world last changed end in the
+  // same block of observations three times in a row. A deterministic thread that has executed a
+  // read-only loop body three times with identical results in an unchanged world will repeat it for
+  // ever (or until a bounded retry counter runs out, which only re-reads): it is treated like a thread
+  // that called yield. Straight-line code that merely reads one atomic several times (size(), then an
+  // assert, then PeekImpl) never forms three identical consecutive blocks and is NOT affected - an
+  // earlier, cruder rule (same observation three times) wrongly parked such threads and hid schedules.
+  if (s.rep_epoch != g_epoch) { s.rep_epoch = g_epoch; s.nhist = 0; }
+  if (s.nhist == NHIST) { memmove(&s.hist[0], &s.hist[NHIST / 2], sizeof(s.hist[0]) * (NHIST - NHIST / 2)); s.nhist = NHIST - NHIST / 2; }
+  s.hist[s.nhist].obj = obj; s.hist[s.nhist].vh = vh; s.nhist++;
+  for (int k = 1; k <= MAXPERIOD && 3 * k <= s.nhist; ++k) {
+    bool same = true;
+    for (int i = 0; i < k && same; ++i) {
+      auto &a = s.hist[s.nhist - 1 - i], &b = s.hist[s.nhist - 1 - i - k], &c = s.hist[s.nhist - 1 - i - 2 * k];
+      if (a.obj != b.obj || a.vh != b.vh || a.obj != c.obj || a.vh != c.vh) same = false;
+    }
+    if (same && k == 1) {
+      // a one-observation body needs five identical observations in a row (three could be straight-line code)
+      same = s.nhist >= 5;
+      for (int i = 1; i < 5 && same; ++i)
+        if (s.hist[s.nhist - 1 - i].obj != s.hist[s.nhist - 1].obj || s.hist[s.nhist - 1 - i].vh != s.hist[s.nhist - 1].vh) same = false;
+    }
+    if (same) { s.yielded = true; s.yield_epoch = g_epoch; break; }
   }
 }
 
